@@ -273,4 +273,32 @@ func runProj(c maskCase, out *hx.Out) {
 		}
 		o.Post = c.Msg
 	})
+	emit("collection.pull.remove", func(o *projObs) {
+		// the OLD value of a REMOVE event is the projection of the removed message
+		col := resource.NewCollection(resource.WithInitialRecord("a", mini.Conc(c.Msg)))
+		ctx, cancel := context.WithCancel(context.Background())
+		defer cancel()
+		ch := col.Pull(ctx, resource.WithReadMask(fm), resource.WithBackpressure(true), resource.WithUpdatesOnly(true))
+		done := make(chan *resource.CollectionChange, 1)
+		go func() {
+			for ev := range ch {
+				done <- ev
+				return
+			}
+		}()
+		if _, err := col.Delete("a"); err != nil {
+			o.Res.X = append(o.Res.X, "<delete-err>")
+			return
+		}
+		select {
+		case ev := <-done:
+			o.Res = mini.Abs(ev.OldValue)
+			if ev.NewValue != nil {
+				o.Res.X = append(o.Res.X, "<remove-with-new-value>")
+			}
+		case <-time.After(5 * time.Second):
+			o.Res.X = append(o.Res.X, "<timeout>")
+		}
+		o.Post = c.Msg
+	})
 }
